@@ -1,4 +1,6 @@
 import Revm.Proofs.EvmStep2Mem
+import Revm.Proofs.EvmStep2Copy
+import Revm.Proofs.EvmStep2Halt
 /-! C01, continued — `step_*_agrees` for the instruction families that `Props/C01.lean` leaves open: memory, copy,
 frame-ending, KECCAK256 / LOG, state-touching host instructions and the CALL / CREATE family.
 
@@ -55,5 +57,53 @@ def view : Done → Option (Nat × Nat × List Nat × List Nat)
 bytes whose last is `0x2a` -/
 example : view (mstoreRule { IState.init [0x52] [] 100 false 17 0 0 0 {} with stack := [0x2a, 0] }) =
     some (1, 94, [], List.replicate 31 0 ++ [0x2a]) := by decide +kernel
+
+/-! ## (b) copies into memory (CALLDATASIZE / CODESIZE / RETURNDATASIZE are rows of `Props.C01.step_env_agrees`) -/
+
+/-- CALLDATALOAD: the 32 input bytes at the offset, zero-padded behind the end of the input, as a big-endian word -/
+theorem step_calldataload_agrees (s : IState) (hcode : s.code[s.pc]? = some 0x35) (hwf : WFM s) :
+    step s = .pure (calldataloadRule s) := Proofs.EvmStep2.step_calldataload s hcode hwf
+
+/-- CALLDATACOPY: `G_verylow + G_copy · ⌈len / 32⌉` + expansion; zero padding behind the end of the input -/
+theorem step_calldatacopy_agrees (s : IState) (hcode : s.code[s.pc]? = some 0x37) (hwf : WFM s) :
+    step s = .pure (calldatacopyRule s) := Proofs.EvmStep2.step_calldatacopy s hcode hwf
+
+/-- CODECOPY: the contract's own bytes (`code.take origLen`: without the analysis padding) -/
+theorem step_codecopy_agrees (s : IState) (hcode : s.code[s.pc]? = some 0x39) (hwf : WFM s) :
+    step s = .pure (codecopyRule s) := Proofs.EvmStep2.step_codecopy s hcode hwf
+
+/-- RETURNDATACOPY (EIP-211): `OutOfOffset` exactly when `off + len` (unbounded sum) exceeds the buffer -/
+theorem step_returndatacopy_agrees (s : IState) (hcode : s.code[s.pc]? = some 0x3e) (hwf : WFM s) :
+    step s = .pure (returndatacopyRule s) := Proofs.EvmStep2.step_returndatacopy s hcode hwf
+
+/-- CALLDATACOPY of 4 bytes from offset 1 of a 3-byte input: two data bytes, two zeros, memory grown to one word -/
+example : view (calldatacopyRule { IState.init [0x37] [7, 8, 9] 100 false 17 0 0 0 {} with stack := [4, 1, 0] }) =
+    some (1, 91, [], [8, 9, 0, 0] ++ List.replicate 28 0) := by decide +kernel
+
+/-! ## (c) the frame ends -/
+
+theorem step_stop_agrees (s : IState) (hcode : s.code[s.pc]? = some 0x00) : step s = .pure (stopRule s) :=
+  Proofs.EvmStep2.step_stop s hcode
+
+theorem step_invalid_agrees (s : IState) (hcode : s.code[s.pc]? = some 0xfe) : step s = .pure (invalidRule s) :=
+  Proofs.EvmStep2.step_invalid s hcode
+
+/-- RETURN: output `μ[off .. off + len)` after expansion; the final state keeps the unspent gas -/
+theorem step_return_agrees (s : IState) (hcode : s.code[s.pc]? = some 0xf3) (hwf : WFM s) :
+    step s = .pure (retRule s) := Proofs.EvmStep2.step_return s hcode hwf
+
+/-- REVERT (EIP-140): `NotActivated` before Byzantium, else RETURN's rule with result `Revert` -/
+theorem step_revert_agrees (s : IState) (hcode : s.code[s.pc]? = some 0xfd) (hwf : WFM s) :
+    step s = .pure (revertRule s) := Proofs.EvmStep2.step_revert s hcode hwf
+
+/-- what an example looks at in a stopped frame: result, output, gas left -/
+def viewHalt : Done → Option (IResult × List Nat × Nat)
+  | .halt r out s => some (r, out, s.gas.remaining)
+  | _ => none
+
+/-- RETURN of 2 bytes at offset 31 of a one-word memory: grows to two words (3 gas), output = last byte and a zero -/
+example : viewHalt (retRule { IState.init [0xf3] [] 100 false 17 0 0 0 {} with
+      stack := [2, 31], mem := { buffer := List.replicate 31 0 ++ [5], checkpoints := [], lastCheckpoint := 0 } }) =
+    some (.Return, [5, 0], 97) := by decide +kernel
 
 end Revm.Props.C01Rules
